@@ -39,6 +39,16 @@ Definition spec_canon_v (fuel : nat) (c : config) (fx : fixes) (m : segs) (s : s
    then Some (match vdec_res pcap m 0 [] rp with Some v => Some (canon v) | None => None end)
    else None, t).
 
+(* the same with the pointer already selected (list members) *)
+Definition spec_canon_v_p (fuel : nat) (c : config) (fx : fixes) (m : segs) (sp : res Ptr * Z) (dcap pcap : Z)
+  : option (option (option (list Z))) * tree :=
+  let '(rp, rl) := sp in
+  let rp := match rp with Ok p => Ok (as_struct p) | other => other end in
+  let '(t, _) := walk c fx m dcap pcap fuel rl rp in
+  (if tree_ok t && tree_small pcap t
+   then Some (match vdec_res pcap m 0 [] rp with Some v => Some (canon v) | None => None end)
+   else None, t).
+
 (* boundary-size inputs: the walker and the step-by-step models are quadratic on the list-based
    memory, the decoder and the specification are not: spec only, no tree *)
 Definition spec_canon_big (c : config) (m : segs) (s : sel) (lcap : Z) : option (option (list Z)) :=
